@@ -71,5 +71,15 @@ def run(ck):
         tasks.append({"scen": "stack", "params": p, "strat": strat, "gran": "line" if i % 5 == 0 else "sync",
                       "facts": {"nested": any(s.get("nested") for s in p["subs"]), "base": p["base"]}})
     ck.run_and_validate(tasks, TRACE)
+    # directed two-preemption sweeps: a submit() racing the shutdown() call (line granularity)
+    from .. import core as _core
+    pp = {"base": "pool", "workers": 2, "layers": [{"t": "cos"}],
+          "subs": [{"S": 0, "script": ["V"], "dur": 300, "thread": 0, "cb": True},
+                   {"S": 100, "script": ["V"], "dur": 300, "thread": 1}, {"S": 100, "script": ["V"], "dur": 50, "thread": 2}],
+          "shutdown": {"at": 100, "wait": True, "repeat": 1}, "horizon": 2500}
+    swept = _core.phase_tasks("stack", pp, [("client1", "sh"), ("sh", "client1"), ("client2", "sh"), ("sh", "client2")],
+                              range(1, 60, 5 if quick else 1), range(1, 50, 6 if quick else 1),
+                              facts={"nested": False, "base": "pool"})
+    ck.run_and_validate(swept, TRACE, nontrivial=lambda t, r: True)
     ck.assumptions += ["cancel() arrivals are observed on the futures the executor returned (instance-level wrapper)",
                        "one thread calls shutdown(); submitters race with it from other threads"]
